@@ -80,7 +80,8 @@ fn l2(d: &LunarDay) -> (i64, i64, i64) {
 fn lunar(ctx: &Ctx, sink: &mut Sink) {
   let mut rng = ctx.rng(2002);
   let years: Vec<i64> = if ctx.quick() {
-    let mut v: Vec<i64> = vec![1, 2, 1900, 1984, 2001, 2012, 2020, 2023, 2024, 2033, 2100, 9997, 9998];
+    // 1536, 1574, 3358, 9962: the lunar year ends with a leap 12th month (New Year's Eve is in month -12); 2033: leap 11th
+    let mut v: Vec<i64> = vec![1, 2, 1536, 1574, 1900, 1984, 2001, 2012, 2020, 2023, 2024, 2033, 2100, 3358, 9962, 9997, 9998];
     for _ in 0..25 {
       v.push(rng.range(1900, 2100));
     }
